@@ -37,6 +37,11 @@ func parseScanArgs(args [][]byte) (cursor []byte, match string, count int, err e
 			if err != nil {
 				return
 			}
+			if count < 0 {
+				// a negative count made the scan handlers index the empty result with -1
+				err = common.ErrInvalidArgs
+				return
+			}
 
 			i++
 		default:
